@@ -128,7 +128,7 @@ def run(tier, seed):
                              f"only in implementation {sorted(set(impl_tab) - spec_tab)}: update StdTable in spec/MC_Pipeline.tla")
 
     big = tier == "thorough"
-    plan = [("bytes", 3 if not big else 4), ("nest", 0), ("std1", 0), ("std2", 0), ("std3", 0), ("std4", 0)]
+    plan = [("bytes", 3 if not big else 4), ("utf8", 0), ("fmt", 0), ("nest", 0), ("std1", 0), ("std2", 0), ("std3", 0), ("std4", 0)]
     for uni, maxlen in plan:
         res = run_tlc("MC_Pipeline", cfg(uni, maxlen, big, len(files)), f"c01_{uni}", workers=8, timeout=3000, coverage=False)
         tlc_must_pass(res, f"universe {uni}")
